@@ -366,21 +366,25 @@ def forceType (f : Field) (v : Val) : Except Err Val :=
   | .bytes, .bytes b => .ok (.bytes b)
   | .bytes, _ => .error .valueError
 
+/-- one field of `Payload.create(**kwargs)`: the given value (coerced) or the table default -/
+def createStep (env : Env) (kw : List (String × Val)) (acc : List (String × Val)) (f : Field) :
+    Except Err (List (String × Val)) :=
+  match kwGet kw f.name with
+  | some v => do
+    let v ← forceType f v
+    let v ← applyConv env f.attrConv v
+    .ok (acc ++ [(f.name, v)])
+  | Option.none =>
+    match f.default with
+    | .none => .error .typeError        -- `cls(**args)`: missing required argument
+    | d => do
+      let d ← applyConv env f.attrConv d
+      .ok (acc ++ [(f.name, d)])
+
 /-- `Payload.create(**kwargs)` for a concrete class -/
 def createConcrete (env : Env) (c : String) (fs : List Field) (kw : List (String × Val)) :
     Except Err Msg := do
-  let kv ← fs.foldlM (init := []) fun acc f =>
-    match kwGet kw f.name with
-    | some v => do
-      let v ← forceType f v
-      let v ← applyConv env f.attrConv v
-      .ok (acc ++ [(f.name, v)])
-    | Option.none =>
-      match f.default with
-      | .none => .error .typeError        -- `cls(**args)`: missing required argument
-      | d => do
-        let d ← applyConv env f.attrConv d
-        .ok (acc ++ [(f.name, d)])
+  let kv ← fs.foldlM (init := []) (createStep env kw)
   .ok { cls := c, fields := kv }
 
 def create (env : Env) (cls : String) (kw : List (String × Val)) : Except Err Msg := do
